@@ -19,12 +19,17 @@ from . import core as _core
 _n = itertools.count()
 
 
+def first_iter_of(ex):
+    return getattr(ex, '_comp_first_iter', None)
+
+
 class CompMixin:
 
     def comp_domain(self, generators, st, frame):
         """-> (bound consts, guard terms, scratch state, facts-start-index)"""
         # the first iterable cannot depend on the bound variables: evaluate it in the real state
         first_iter = self.ev1(generators[0].iter, st, frame)
+        self._comp_first_iter = first_iter
         self._comp_fresh_start = len(_core.FRESH_LOG)
         s = st.fork()
         s.locals = dict(st.locals)
@@ -247,6 +252,17 @@ class CompMixin:
         st.assume(n >= 0)
         if facts:
             self.assert_facts(st, bvs, guards, facts)
+        if listgen is not None and len(node.generators) == 1 and not node.generators[0].ifs \
+                and isinstance(first_iter_of(self), Cont):
+            # a plain map over a list: same length, element by element
+            src_list = first_iter_of(self)
+            st.assume(n == self.l_len(src_list, st))
+            st.assume(z3.ForAll([j], z3.Implies(z3.And(0 <= j, j < n),
+                                                z3.Select(arr, j) == z3.substitute(eterm, (bvs[0], j))),
+                                patterns=[z3.Select(arr, j), z3.Select(self.l_arr(src_list, st), j)]))
+            c = self.new_cont(lt, st, lt.mk(n, arr))
+            yield st, c
+            return
         st.assume(z3.ForAll([j], z3.Implies(z3.And(0 <= j, j < n),
                                             z3.And(z3.substitute(G, *sub),
                                                    z3.Select(arr, j) == z3.substitute(eterm, *sub),
